@@ -2,8 +2,14 @@
 (* Exhaustive / export model for C16 part 1: every nested dictionary over a  *)
 (* catalogue of leaf values (all value kinds, rectangular / ragged / string /*)
 (* dict-valued sequences) up to Depth; RoundTrip is checked in every state.  *)
+(* Catalogue = "kinds":   every value kind / sequence shape (ASCII strings)   *)
+(* Catalogue = "strings": the value alphabet of stored strings -- empty,      *)
+(*   spaces, newlines, accents, typographic quotes, micro sign, a BibTeX-like *)
+(*   block -- as scalars, in lists and tuples, in nested / ragged sequences   *)
+(*   and inside dictionaries held by a list, placed at every nesting depth.   *)
+(* SizeTest: how the binner decides on the integer output size (SizeArith).   *)
 EXTENDS Output
-CONSTANTS KeysTop, KeysNested, Depth, Export
+CONSTANTS KeysTop, KeysNested, Depth, Export, Catalogue, SizeTest
 VARIABLE d
 
 Sc(k, n, dd) == [k |-> k, n |-> n, d |-> dd]
@@ -19,7 +25,7 @@ A3 == Arr("float", <<3>>, <<<<1, 2>>, <<2, 1>>, <<-3, 1>>>>)
 A2 == Arr("float", <<2>>, <<<<5, 1>>, <<1, 4>>>>)
 A22 == Arr("int", <<2, 2>>, <<<<1, 1>>, <<2, 1>>, <<3, 1>>, <<4, 1>>>>)
 A0 == Arr("float", <<0>>, <<>>)
-Leaves == { I3, F12, FN, BT, Str("abc"), Str("H2O-x y"), A3, A22, A0,
+KindLeaves == { I3, F12, FN, BT, Str("abc"), Str("H2O-x y"), A3, A22, A0,
             Li(<<I3, F12>>),                              \* numeric list -> float array
             Li(<<BT, I3>>),                               \* bool + int -> int array
             Li(<<Li(<<I3, I0>>), Li(<<I0, I3>>)>>),       \* rectangular nesting -> 2-d array
@@ -32,6 +38,24 @@ Leaves == { I3, F12, FN, BT, Str("abc"), Str("H2O-x y"), A3, A22, A0,
             Tu(<<I3, F12>>), Tu(<<Str("x"), Str("y")>>), Tu(<<A3, A2>>),
             Li(<<Di("p" :> I3), Di("q" :> Str("abc"))>>)  \* list of dicts -> groups key0, key1
           }
+\* string alphabet classes in token form (<U+XXXX> = the character with that code point)
+SE  == ""                                                  \* empty
+SSP == " "                                                 \* one space
+SIN == " a  b "                                            \* leading, inner (double) and trailing spaces
+SNL == "l1<U+000A>l2<U+000A>"                               \* newlines, one of them trailing
+SAC == "Ren<U+00E9>e Fran<U+00E7>ois"                       \* accents
+SQU == "Allen<U+2019>s <U+201C>q<U+201D>"                   \* typographic apostrophe and quotes
+SMU == "3.6 <U+00B5>m"                                      \* micro sign
+SBI == "@book{k,<U+000A>  title={Allen<U+2019>s \\& co},<U+000A>  note=\"<U+00B5>m, <U+00E9>\"<U+000A>}"   \* BibTeX-like block
+StrAlphabet == {SE, SSP, SIN, SNL, SAC, SQU, SMU, SBI}
+StrLeaves == {Str(x) : x \in StrAlphabet} \cup
+          { Li(<<Str(SAC), Str(SE)>>), Li(<<Str(SQU), Str(SMU), Str(SSP)>>), Li(<<Str(SNL)>>),      \* string lists
+            Tu(<<Str(SMU), Str(SAC)>>), Tu(<<Str(SE)>>), Tu(<<Str(SIN), Str(SNL), Str(SQU)>>),      \* string tuples
+            Li(<<Li(<<Str(SAC), Str(SE)>>), Li(<<Str(SMU)>>)>>),      \* ragged list of string lists -> key0, key1
+            Li(<<Tu(<<Str(SQU)>>), Tu(<<Str(SE)>>)>>),                \* rectangular nesting of strings -> key0, key1
+            Li(<<Di("p" :> Str(SAC)), Di("q" :> Tu(<<Str(SMU), Str(SQU)>>))>>),   \* dictionaries held by a list
+            I3 }
+Leaves == IF Catalogue = "kinds" THEN KindLeaves ELSE StrLeaves
 KeysAt(n) == IF n = Depth THEN KeysTop ELSE KeysNested
 RECURSIVE Vals(_), Dicts(_)
 Dicts(n) == UNION {[ks -> Vals(n - 1)] : ks \in SUBSET KeysAt(n)}
@@ -44,7 +68,12 @@ Spec == Init /\ [][Next]_d
 RoundTrip == (\A x \in DOMAIN d : WellFormed(d[x])) => RoundTripOf(d)
 NoError   == StoreDict(d).n # "error"
 \* ASSUME-time tables for the driver
-EmitTables == PrintT(<<"KEYS", ToJson(SpectrumTable)>>)
+EmitTables == /\ PrintT(<<"KEYS", ToJson(SpectrumTable)>>)
+              /\ PrintT(<<"TAU", ToJson(TauRows)>>)
+\* the integer arithmetic of the callers implements the table (refuted for SizeTest = "identity")
+\* (stated over the state so that TLC reports a refutation as an invariant violation)
+SizeArith == \A x \in {d} : SizeArithOf(SizeTest)
+SizeFirm  == \A x \in {d} : SizeBounds
 ASSUME EmitTables
 Emit == Export => PrintT(<<"VEC", ToJson([dict |-> d, tree |-> CanonDict(d)])>>)
 =============================================================================
